@@ -158,22 +158,27 @@ package autodiff
 //@   modifies $R.Value@{c}, $R.N@{c}, $R.Order@{c}, $R.Derivative@{c}, $R.Hessian@{c}, []$F@{q :: owns_$R(c, q)}
 //@   loop 1 invariant 0 <= i && i <= c.N && c.Order >= 2 && RI_$R(c) && c.N == old(max(nvars(a), nvars(b))) && c.Order == old(max(order(a), order(b)))
 //@   loop 1 invariant order(a) == old(order(a)) && nvars(a) == old(nvars(a)) && order(b) == old(order(b)) && nvars(b) == old(nvars(b))
-//@   loop 1 invariant forall k int :: 0 <= k && k < c.N ==> D(a, k) == old(D(a, k)) && D(b, k) == old(D(b, k))
+//@   loop 1 invariant forall k int :: 0 <= k && k < c.N ==> D(a, k) == old(D(a, k))
+//@   loop 1 invariant forall k int :: 0 <= k && k < c.N ==> D(b, k) == old(D(b, k))
 //@   loop 1 invariant forall p int, q int :: 0 <= p && p < i && p <= q && q < c.N ==> c.Hessian[p][q] == old(L2H(a, b, v10, v01, v11, v20, v02, p, q)) && c.Hessian[q][p] == old(L2H(a, b, v10, v01, v11, v20, v02, p, q))
-//@   loop 1 invariant forall p int, q int :: i <= p && p <= q && q < c.N ==> H(a, p, q) == old(H(a, p, q)) && H(b, p, q) == old(H(b, p, q))
+//@   loop 1 invariant forall p int, q int :: i <= p && p <= q && q < c.N ==> H(a, p, q) == old(H(a, p, q))
+//@   loop 1 invariant forall p int, q int :: i <= p && p <= q && q < c.N ==> H(b, p, q) == old(H(b, p, q))
 //@   loop 1 invariant forall r int, k int :: r < old(alloc) && !old(owns_$R(c, r)) ==> row($F, r)[k] == old(row($F, r)[k])
 //@   loop 1 decreases c.N - i
 //@   loop 2 invariant 0 <= i && i < c.N && i <= j && j <= c.N && c.Order >= 2 && RI_$R(c) && c.N == old(max(nvars(a), nvars(b))) && c.Order == old(max(order(a), order(b)))
 //@   loop 2 invariant order(a) == old(order(a)) && nvars(a) == old(nvars(a)) && order(b) == old(order(b)) && nvars(b) == old(nvars(b))
-//@   loop 2 invariant forall k int :: 0 <= k && k < c.N ==> D(a, k) == old(D(a, k)) && D(b, k) == old(D(b, k))
+//@   loop 2 invariant forall k int :: 0 <= k && k < c.N ==> D(a, k) == old(D(a, k))
+//@   loop 2 invariant forall k int :: 0 <= k && k < c.N ==> D(b, k) == old(D(b, k))
 //@   loop 2 invariant forall p int, q int :: 0 <= p && p < i && p <= q && q < c.N ==> c.Hessian[p][q] == old(L2H(a, b, v10, v01, v11, v20, v02, p, q)) && c.Hessian[q][p] == old(L2H(a, b, v10, v01, v11, v20, v02, p, q))
 //@   loop 2 invariant forall q int :: i <= q && q < j ==> c.Hessian[i][q] == old(L2H(a, b, v10, v01, v11, v20, v02, i, q)) && c.Hessian[q][i] == old(L2H(a, b, v10, v01, v11, v20, v02, i, q))
-//@   loop 2 invariant forall p int, q int :: i <= p && p <= q && q < c.N && !(p == i && q < j) ==> H(a, p, q) == old(H(a, p, q)) && H(b, p, q) == old(H(b, p, q))
+//@   loop 2 invariant forall p int, q int :: i <= p && p <= q && q < c.N && !(p == i && q < j) ==> H(a, p, q) == old(H(a, p, q))
+//@   loop 2 invariant forall p int, q int :: i <= p && p <= q && q < c.N && !(p == i && q < j) ==> H(b, p, q) == old(H(b, p, q))
 //@   loop 2 invariant forall r int, k int :: r < old(alloc) && !old(owns_$R(c, r)) ==> row($F, r)[k] == old(row($F, r)[k])
 //@   loop 2 decreases c.N - j
 //@   loop 3 invariant 0 <= i && i <= c.N && c.Order >= 1 && RI_$R(c) && c.N == old(max(nvars(a), nvars(b))) && c.Order == old(max(order(a), order(b)))
 //@   loop 3 invariant order(a) == old(order(a)) && nvars(a) == old(nvars(a)) && order(b) == old(order(b)) && nvars(b) == old(nvars(b))
-//@   loop 3 invariant forall k int :: i <= k && k < c.N ==> D(a, k) == old(D(a, k)) && D(b, k) == old(D(b, k))
+//@   loop 3 invariant forall k int :: i <= k && k < c.N ==> D(a, k) == old(D(a, k))
+//@   loop 3 invariant forall k int :: i <= k && k < c.N ==> D(b, k) == old(D(b, k))
 //@   loop 3 invariant forall k int :: 0 <= k && k < i ==> c.Derivative[k] == old(L2D(a, b, v10, v01, k))
 //@   loop 3 invariant c.Order >= 2 ==> (forall p int, q int :: 0 <= p && p <= q && q < c.N ==> c.Hessian[p][q] == old(L2H(a, b, v10, v01, v11, v20, v02, p, q)) && c.Hessian[q][p] == old(L2H(a, b, v10, v01, v11, v20, v02, p, q)))
 //@   loop 3 invariant forall r int, k int :: r < old(alloc) && !old(owns_$R(c, r)) ==> row($F, r)[k] == old(row($F, r)[k])
@@ -216,22 +221,27 @@ package autodiff
 //@   modifies $R.Value@{c}, $R.N@{c}, $R.Order@{c}, $R.Derivative@{c}, $R.Hessian@{c}, []$F@{q :: owns_$R(c, q)}
 //@   loop 1 invariant 0 <= i && i <= c.N && c.Order >= 2 && RI_$R(c) && c.N == old(max(nvars(a), nvars(b))) && c.Order == old(max(order(a), order(b)))
 //@   loop 1 invariant order(a) == old(order(a)) && nvars(a) == old(nvars(a)) && order(b) == old(order(b)) && nvars(b) == old(nvars(b))
-//@   loop 1 invariant forall k int :: 0 <= k && k < c.N ==> D(a, k) == old(D(a, k)) && D(b, k) == old(D(b, k))
+//@   loop 1 invariant forall k int :: 0 <= k && k < c.N ==> D(a, k) == old(D(a, k))
+//@   loop 1 invariant forall k int :: 0 <= k && k < c.N ==> D(b, k) == old(D(b, k))
 //@   loop 1 invariant forall p int, q int :: 0 <= p && p < i && p <= q && q < c.N ==> c.Hessian[p][q] == old(L2H(a, b, v10, v01, v11, v20, v02, p, q)) && c.Hessian[q][p] == old(L2H(a, b, v10, v01, v11, v20, v02, p, q))
-//@   loop 1 invariant forall p int, q int :: i <= p && p <= q && q < c.N ==> H(a, p, q) == old(H(a, p, q)) && H(b, p, q) == old(H(b, p, q))
+//@   loop 1 invariant forall p int, q int :: i <= p && p <= q && q < c.N ==> H(a, p, q) == old(H(a, p, q))
+//@   loop 1 invariant forall p int, q int :: i <= p && p <= q && q < c.N ==> H(b, p, q) == old(H(b, p, q))
 //@   loop 1 invariant forall r int, k int :: r < old(alloc) && !old(owns_$R(c, r)) ==> row($F, r)[k] == old(row($F, r)[k])
 //@   loop 1 decreases c.N - i
 //@   loop 2 invariant 0 <= i && i < c.N && i <= j && j <= c.N && c.Order >= 2 && RI_$R(c) && c.N == old(max(nvars(a), nvars(b))) && c.Order == old(max(order(a), order(b)))
 //@   loop 2 invariant order(a) == old(order(a)) && nvars(a) == old(nvars(a)) && order(b) == old(order(b)) && nvars(b) == old(nvars(b))
-//@   loop 2 invariant forall k int :: 0 <= k && k < c.N ==> D(a, k) == old(D(a, k)) && D(b, k) == old(D(b, k))
+//@   loop 2 invariant forall k int :: 0 <= k && k < c.N ==> D(a, k) == old(D(a, k))
+//@   loop 2 invariant forall k int :: 0 <= k && k < c.N ==> D(b, k) == old(D(b, k))
 //@   loop 2 invariant forall p int, q int :: 0 <= p && p < i && p <= q && q < c.N ==> c.Hessian[p][q] == old(L2H(a, b, v10, v01, v11, v20, v02, p, q)) && c.Hessian[q][p] == old(L2H(a, b, v10, v01, v11, v20, v02, p, q))
 //@   loop 2 invariant forall q int :: i <= q && q < j ==> c.Hessian[i][q] == old(L2H(a, b, v10, v01, v11, v20, v02, i, q)) && c.Hessian[q][i] == old(L2H(a, b, v10, v01, v11, v20, v02, i, q))
-//@   loop 2 invariant forall p int, q int :: i <= p && p <= q && q < c.N && !(p == i && q < j) ==> H(a, p, q) == old(H(a, p, q)) && H(b, p, q) == old(H(b, p, q))
+//@   loop 2 invariant forall p int, q int :: i <= p && p <= q && q < c.N && !(p == i && q < j) ==> H(a, p, q) == old(H(a, p, q))
+//@   loop 2 invariant forall p int, q int :: i <= p && p <= q && q < c.N && !(p == i && q < j) ==> H(b, p, q) == old(H(b, p, q))
 //@   loop 2 invariant forall r int, k int :: r < old(alloc) && !old(owns_$R(c, r)) ==> row($F, r)[k] == old(row($F, r)[k])
 //@   loop 2 decreases c.N - j
 //@   loop 3 invariant 0 <= i && i <= c.N && c.Order >= 1 && RI_$R(c) && c.N == old(max(nvars(a), nvars(b))) && c.Order == old(max(order(a), order(b)))
 //@   loop 3 invariant order(a) == old(order(a)) && nvars(a) == old(nvars(a)) && order(b) == old(order(b)) && nvars(b) == old(nvars(b))
-//@   loop 3 invariant forall k int :: i <= k && k < c.N ==> D(a, k) == old(D(a, k)) && D(b, k) == old(D(b, k))
+//@   loop 3 invariant forall k int :: i <= k && k < c.N ==> D(a, k) == old(D(a, k))
+//@   loop 3 invariant forall k int :: i <= k && k < c.N ==> D(b, k) == old(D(b, k))
 //@   loop 3 invariant forall k int :: 0 <= k && k < i ==> c.Derivative[k] == old(L2D(a, b, v10, v01, k))
 //@   loop 3 invariant c.Order >= 2 ==> (forall p int, q int :: 0 <= p && p <= q && q < c.N ==> c.Hessian[p][q] == old(L2H(a, b, v10, v01, v11, v20, v02, p, q)) && c.Hessian[q][p] == old(L2H(a, b, v10, v01, v11, v20, v02, p, q)))
 //@   loop 3 invariant forall r int, k int :: r < old(alloc) && !old(owns_$R(c, r)) ==> row($F, r)[k] == old(row($F, r)[k])
